@@ -95,6 +95,9 @@ def check_search(ctx, case):
         ctx.note("match-crosses-origin")
     ctx.case(case, nontrivial=m is not None)
     ctx.op(("SEARCH", pat, wd, kind, linear, pos, endpos), case)
+    # every fit, not only the reported one (ties the model's enumeration `allFits` to `re`)
+    if n <= 10 and pat.count("*") <= 2 and ctx.evaluations % 5 == 0:
+        ctx.op(("FITS", pat, wd), case)
 
 
 def gen_search(rng):
